@@ -206,10 +206,19 @@ def check(nil: Any, model: List[Item], where: str) -> None:
 def run_history(hist: List[Tuple], alpha: List[Item], cls: Any) -> Tuple[Any, List[Item], Optional[Tuple[int, Broken]]]:
     nil = cls()
     model: List[Item] = []
+    ever: set = set()   # every name that has ever been a key of (this lineage of) the list
     for n, op in enumerate(hist):
         try:
             nil, model = apply_op(nil, model, op, alpha, cls)
             check(nil, model, f"after op {n} {op}")
+            now = set(nil.keys())
+            ever |= now
+            for gone in ever - now:
+                # a name that is no key any more must not lead to an item any more either
+                if hasattr(nil, gone) and not callable(getattr(type(nil), gone, None)) and \
+                        not hasattr(list, gone):
+                    raise Broken("name-outlives-item", f"after op {n} {op}: '{gone}' is no key "
+                                 f"any more but getattr(nil, '{gone}') still answers")
         except Broken as b:
             return nil, model, (n, b)
         except monitors.NilInvariantBroken as e:
